@@ -90,7 +90,10 @@ def join(a, b):
         return b
     if b.k == 'none':
         return a
-    if a.k == b.k and a.k not in ('const', 'tuple', 'list'):
+    if a.k == b.k and a.k in ('ids', 'md', 'index') and a.ax and b.ax \
+            and a.ax != b.ax:
+        return V(a.k, ax=None, c=('conflict', a.ax, b.ax))
+    if a.k == b.k and a.k not in ('const', 'tuple', 'list', 'recdict'):
         return V(a.k, ax=a.ax if a.ax == b.ax else None,
                  own=a.own if a.own == b.own else None,
                  maj=a.maj if a.maj == b.maj else None,
@@ -114,6 +117,12 @@ def join(a, b):
             ax = a.ax if a.ax == b.ax else None
         return V('list', el=el, ax=ax)
     pair = {a.k, b.k}
+    if pair == {'recdict', 'dict'}:
+        return a if a.k == 'recdict' else b
+    if a.k == b.k == 'recdict' and a.elts and b.elts and \
+            len(a.elts) == len(b.elts):
+        return V('recdict', elts=tuple(join(x, y)
+                                       for x, y in zip(a.elts, b.elts)))
     if pair == {'md', 'md1'} and a.ax == b.ax and a.ax:
         return V('md', ax=a.ax, own=a.own if a.own == b.own else None)
     if pair == {'list', 'md'} and a.ax == b.ax and a.ax:
@@ -153,6 +162,8 @@ def _roles():
         'Table.from_hdf5': {'h5grp': lambda P: V('h5')},
         'Table.from_json': {'json_table': lambda P: V('jsondoc')},
         'Table.update_ids': {},
+        'Table.head': {'n': lambda P: V('len', ax=O, c='param'),
+                       'm': lambda P: V('len', ax=S, c='param')},
         'Table.align_to': {'other': lambda P: V('table', own='other')},
     }
 
@@ -258,6 +269,26 @@ class AxisInterp:
     def stmt(self, st, env):
         if isinstance(st, ast.Expr):
             self.ev(st.value, env)
+            v0 = st.value
+            if isinstance(v0, ast.Call) and isinstance(
+                    v0.func, ast.Attribute) and v0.func.attr == 'append' \
+                    and v0.args and isinstance(v0.func.value, ast.Subscript) \
+                    and isinstance(v0.func.value.value, ast.Subscript) and \
+                    isinstance(v0.func.value.value.value, ast.Name) and \
+                    isinstance(v0.func.value.slice, ast.Constant):
+                dn = v0.func.value.value.value.id
+                cur = env.get(dn)
+                i = v0.func.value.slice.value
+                if cur is not None and cur.k == 'recdict' and cur.elts and \
+                        isinstance(i, int) and 0 <= i < len(cur.elts):
+                    item = self.ev(v0.args[0], env)
+                    ax = self.loop_axis[-1] if self.loop_axis else None
+                    newl = join(cur.elts[i], V('list', el=item, ax=ax))
+                    elts = list(cur.elts)
+                    elts[i] = newl
+                    env = dict(env)
+                    env[dn] = V('recdict', elts=tuple(elts))
+                    return env
             # list.append inside an axis loop builds a per-axis collection
             v = st.value
             if isinstance(v, ast.Call) and isinstance(v.func,
@@ -280,6 +311,12 @@ class AxisInterp:
                         newv = V('list', el=TOP)
                 else:
                     newv = V('list', el=item, ax=ax)
+                if isinstance(item.c, tuple) and item.c and \
+                        item.c[0] == 'conflict':
+                    self.sink('CTOR', v, 'accumulate:%s' % name, 'bad',
+                              'entries of the %s axis on one path and of '
+                              'the %s axis on another are accumulated in %s'
+                              % (NAMEAX[item.c[1]], NAMEAX[item.c[2]], name))
                 if cur is not None and cur.k == 'list':
                     newv = join(cur, newv)
                     if v.func.attr == 'extend':
@@ -372,7 +409,19 @@ class AxisInterp:
                 for t in target.elts:
                     self.assign(t, TOP, env, st)
         elif isinstance(target, ast.Attribute):
+            if target.attr == '_data' and dotted(target):
+                env[dotted(target)] = val
             self.field_store(target, val, env, st)
+        elif isinstance(target, ast.Subscript) and isinstance(
+                target.value, ast.Name) and val.k == 'tuple' and val.c == \
+                'rec':
+            cur = env.get(target.value.id)
+            if cur is not None and cur.k == 'recdict' and cur.elts and \
+                    len(cur.elts) == len(val.elts):
+                env[target.value.id] = V('recdict', elts=tuple(
+                    join(a, b) for a, b in zip(cur.elts, val.elts)))
+            else:
+                env[target.value.id] = V('recdict', elts=val.elts)
         elif isinstance(target, ast.Subscript):
             base = self.ev(target.value, env)
             if base.k == 'per' and base.c == 'alloc' and base.ax:
@@ -496,6 +545,14 @@ class AxisInterp:
                                     V('pos1', ax=itv.ax))), itv.ax
         if itv.k == 'index':
             return V('id', ax=itv.ax, own=itv.own), itv.ax
+        if itv.k == 'md1':
+            return V('mdkey', c=dotted(it) if it is not None else None), None
+        if itv.k == 'mdkeys':
+            return V('mdkey', c=itv.c), None
+        if itv.k == 'mditems':
+            return V('tuple', elts=(V('mdkey', c=itv.c), TOP)), None
+        if itv.k == 'recdict-items' and itv.elts:
+            return V('tuple', elts=(TOP, V('tuple', elts=itv.elts))), None
         if itv.k == 'jsonrecs':
             return V('jsonrec', ax=itv.ax), itv.ax
         if itv.k == 'len' and itv.ax:
@@ -505,6 +562,11 @@ class AxisInterp:
     # ---- truth --------------------------------------------------------
     def truth(self, test, env):
         v = self.ev(test, env)
+        if v.k == 'pos1':
+            self.sink('TRUTH', test, 'position-as-truth', 'bad',
+                      'a position (which may be 0) is used as a truth '
+                      'value: the first id on the axis is treated as '
+                      'missing')
         if v.k == 'const' and not isinstance(v.c, V):
             try:
                 return bool(v.c)
@@ -585,6 +647,9 @@ class AxisInterp:
                 # a literal list of axis names can be iterated (unrolled)
                 if elts and all(x.k in ('axis', 'const') for x in elts):
                     return V('tuple', elts=elts, c='seq')
+                if len(elts) >= 2 and all(x.k == 'list' and x.el is None
+                                          for x in elts):
+                    return V('tuple', elts=elts, c='rec')
                 if elts:
                     el = elts[0]
                     for x in elts[1:]:
@@ -749,6 +814,15 @@ class AxisInterp:
                     cval(t) is not Ellipsis for t in b.elts):
             res = x in [cval(t) for t in b.elts]
             return V('const', c=res if isinstance(op, ast.In) else not res)
+        if a.k == 'len' and b.k == 'len' and a.ax and b.ax and \
+                isinstance(op, (ast.Lt, ast.LtE, ast.Gt, ast.GtE, ast.Eq,
+                                ast.NotEq)):
+            if a.ax != b.ax:
+                self.sink('SHAPE', e, 'compare-lengths', 'bad',
+                          'a number of %ss is compared with a number of %ss'
+                          % (NAMEAX[a.ax], NAMEAX[b.ax]))
+            else:
+                self.sink('SHAPE', e, 'compare-lengths', 'ok', '')
         # (ids == order).all() style comparisons keep an axis
         if a.k in ('ids', 'per') and b.k in ('ids', 'list', 'per'):
             return V('per', ax=a.ax)
@@ -766,6 +840,9 @@ class AxisInterp:
                 kind, ax = self.FIELDS[attr]
                 return V(kind, ax=ax, own=base.own)
             if attr in ('_data', 'matrix_data'):
+                key = (dotted(e.value) or '') + '._data'
+                if key in env and env[key].k == 'matrix':
+                    return env[key].with_(own=base.own)
                 return V('matrix', own=base.own)
             if attr == 'shape':
                 return V('tuple', elts=(V('len', ax=O, own=base.own),
@@ -785,6 +862,18 @@ class AxisInterp:
                 r, c = (S, O) if base.flip else (O, S)
                 return V('tuple', elts=(V('len', ax=r), V('len', ax=c)),
                          c='shape')
+            if attr in ('indices', 'indptr') and base.own is not None and \
+                    base.c != 'dense':
+                if base.maj is None:
+                    self.sink('MAJOR', e, 'raw-%s' % attr, 'bad',
+                              'the compressed-storage array %s of a table\'s '
+                              'matrix is read without fixing its layout '
+                              '(tocsr/tocsc): after a per-sample operation '
+                              'the matrix is column-compressed and the array '
+                              'means something else' % attr)
+                else:
+                    self.sink('MAJOR', e, 'raw-%s' % attr, 'ok',
+                              'layout fixed (%s-major)' % NAMEAX[base.maj])
             if attr in ('data', 'indices', 'indptr', 'nnz', 'dtype'):
                 return V('raw')
             return V('mmethod', c=attr, el=base, node=e)
@@ -876,6 +965,15 @@ class AxisInterp:
             return V('pos1', ax=base.ax, own=base.own)
         if base.k == 'matrix':
             return self.matrix_subscript(e, base, env)
+        if base.k == 'md1' and isinstance(e.ctx, ast.Load):
+            idx = self.ev(sl, env)
+            if idx.k == 'mdkey' and idx.c == dotted(e.value):
+                return TOP          # key taken from this very mapping
+            self.sink('DDICT', e, 'metadata-subscript-read', 'bad',
+                      'a per-id metadata mapping is a defaultdict: reading '
+                      'md[key] inserts key -> None when absent, so this '
+                      'read changes the table (use .get)')
+            return TOP
         if base.k == 'dict':
             return base.el or TOP
         if base.k == 'table':
@@ -989,6 +1087,10 @@ class AxisInterp:
             v = self.ev(e.args[0], env)
             for a in e.args[1:]:
                 self.ev(a, env)
+            if v.k == 'md1':
+                return V('mdkeys', c=dotted(e.args[0]))
+            if v.k == 'mdkeys':
+                return v
             if name in ('np.concatenate', 'np.hstack') and \
                     v.k == 'list' and v.el is not None and v.el.k == 'ids':
                 return V('ids', ax=v.el.ax, c='concat')
@@ -1005,6 +1107,12 @@ class AxisInterp:
             return TOP if v.k not in ('matrix',) else v
         if name in ('set', 'list', 'dict') and not e.args:
             return V('list', el=None)
+        if name in ('sorted', 'list', 'set', 'tuple', 'iter') and e.args:
+            v0 = self.ev(e.args[0], env)
+            if v0.k == 'md1':
+                return V('mdkeys', c=dotted(e.args[0]))
+            if v0.k == 'mdkeys':
+                return v0
         if name == 'index_list' and e.args:
             v = self.ev(e.args[0], env)
             return V('index', ax=v.ax if v.k == 'ids' else None, own=v.own)
@@ -1103,6 +1211,17 @@ class AxisInterp:
             if recv.k in ('ids', 'md', 'per', 'list', 'pos', 'index',
                           'order', 'dict'):
                 return self.collection_method(e, recv, f.attr, env)
+            if recv.k == 'md1' and f.attr in ('keys', 'items', 'get',
+                                              'values'):
+                if f.attr == 'keys':
+                    return V('mdkeys', c=dotted(f.value))
+                if f.attr == 'items':
+                    return V('mditems', c=dotted(f.value))
+                for a in e.args:
+                    self.ev(a, env)
+                return TOP
+            if recv.k == 'recdict' and f.attr == 'items':
+                return V('recdict-items', elts=recv.elts)
             if recv.k == 'class' and f.attr in ('_to_sparse',):
                 for a in e.args:
                     self.ev(a, env)
@@ -1583,6 +1702,12 @@ class AxisInterp:
                 vax = v.ax
             want = inv(sax) if flipped else sax
             role = 'slot:%s' % slot
+            if isinstance(v.c, tuple) and v.c and v.c[0] == 'conflict':
+                self.sink('CTOR', e, role, 'bad',
+                          'the value passed in the %s slot is of the %s '
+                          'axis on one path and of the %s axis on another'
+                          % (slot, NAMEAX[v.c[1]], NAMEAX[v.c[2]]))
+                continue
             if vax is None or v.k in ('top',):
                 self.sink('CTOR', e, role, 'unknown',
                           'argument axis unresolved (%r)' % v)
@@ -1599,6 +1724,23 @@ class AxisInterp:
                           'slot%s' % (NAMEAX[vax], unparse(node, 50), slot,
                                       ' of a transposed matrix'
                                       if flipped else ''))
+        for islot, idslot in (('observation_index', 'observation_ids'),
+                              ('sample_index', 'sample_ids')):
+            if islot in bound and idslot in bound:
+                iv, idv = bound[islot][1], bound[idslot][1]
+                if iv.k == 'index' and iv.c != 'param' and iv.own:
+                    if idv.k == 'ids' and idv.own == iv.own and \
+                            idv.ax == iv.ax:
+                        self.sink('REINDEX', e, 'index-owner:%s' % islot,
+                                  'ok', 'the lookup passed is that of the '
+                                  'ids passed (%s)' % iv.own)
+                    elif idv.k in ('ids', 'list') and idv.own != iv.own:
+                        self.sink('REINDEX', e, 'index-owner:%s' % islot,
+                                  'bad', 'a ready-made lookup of table '
+                                  '%r is passed along ids that are not that '
+                                  'table\'s ids on this axis (%r): positions '
+                                  'in the lookup do not describe the new '
+                                  'table' % (iv.own, idv))
         # matrix growth direction vs. concatenated ids (concat)
         if data.k == 'matrix' and isinstance(data.c, tuple) and \
                 data.c[0] == 'grows' and data.c[2]:
